@@ -6,7 +6,7 @@ OUTSIDE = DC.OUTSIDE_FUNCS
 STUBS = []
 BOUNDS = {"quick": "2 base primitive pairs x 11 one-parameter sweeps (translation along a line / rotation about an axis, t in [-3,3] resp. all angles but pi) per function; <=300 branch decisions per path",
           "thorough": "all corpus pairs x 15 sweeps incl. 2-parameter translations"}
-WALL_BUDGET = {"quick": 420, "thorough": 900}
+WALL_BUDGET = {"quick": 300, "thorough": 600}
 EXPECTED_EXCEPTIONS = ()
 
 
